@@ -262,9 +262,9 @@ int32 csAesGcmDecrypt(void *ssl, unsigned char *ct,
 
     /*
       Minimum GCM ciphertext length in TLS 1.2:
-      25 = 1 + 16 (tag) + 8 (nonce_explicit).
+      24 = 0 (an empty fragment is legal) + 16 (tag) + 8 (nonce_explicit).
     */
-    if (len < 25)
+    if (len < 24)
     {
         psTraceErrr("Invalid GCM ciphertext length\n");
         psTraceIntInfo("(%u)\n", len);
